@@ -22,11 +22,44 @@ func activeFieldAddr(addr ssa.Value) (string, ssa.Value, bool) {
 		return "", nil, false
 	}
 	fr, _ := eng.FieldOfAddr(outer)
-	if !fr.Is(setecPkg, "Store", "active") {
+	if !eng.IsNamed(fr.Owner, setecPkg, "Store") {
 		return "", nil, false
 	}
-	name := eng.FieldName(fa.X.Type(), fa.Field)
-	if name != "m" && name != "f" && name != "w" {
+	// roles by type, whatever the fields are called: the guarded group is
+	// the struct holding the map to *cachedSecret; in it "m" is that map,
+	// "f" the map to Secret (handles), "w" the map to watcher lists
+	st, ok := eng.Deref(fa.X.Type()).Underlying().(*types.Struct)
+	if !ok || fa.Field >= st.NumFields() {
+		return "", nil, false
+	}
+	role := func(t types.Type) string {
+		mt, isMap := t.Underlying().(*types.Map)
+		if !isMap {
+			return ""
+		}
+		el := mt.Elem()
+		if pt, isP := el.(*types.Pointer); isP && eng.IsNamed(pt.Elem(), setecPkg, "cachedSecret") {
+			return "m"
+		}
+		if eng.IsNamed(el, setecPkg, "Secret") {
+			return "f"
+		}
+		if sl, isSl := el.Underlying().(*types.Slice); isSl && eng.IsNamed(sl.Elem(), setecPkg, "watcher") {
+			return "w"
+		}
+		return ""
+	}
+	isGroup := false
+	for i := 0; i < st.NumFields(); i++ {
+		if role(st.Field(i).Type()) == "m" {
+			isGroup = true
+		}
+	}
+	if !isGroup {
+		return "", nil, false
+	}
+	name := role(st.Field(fa.Field).Type())
+	if name == "" {
 		return "", nil, false // the mutex itself
 	}
 	return name, outer.X, true
@@ -342,7 +375,6 @@ func noForget(c *eng.Ctx, rule string) {
 		c.Ok(rule, nil, 0, "singleflight.Group.Forget calls in the client library", "none")
 	}
 }
-
 
 // handleBoundToName: a handle must find its entry through the active map at
 // the time of the call.  Polls update entries in place, but a lookup that
